@@ -55,6 +55,7 @@ def run(ctx):
     # tightened configuration of the header (shared with C05)
     from .c05 import blockcfg_rule
     blockcfg_rule(ctx)
+    codec_default_rule(ctx)
     f = ctx.f
     # ---- MAGIC
     hc = f.consts.get(P + 'HEADER_CONST')
@@ -176,6 +177,27 @@ def run(ctx):
     # neither kept nor counted (shared with C15)
     from .c15 import failed_rule
     failed_rule(ctx)
+
+
+def codec_default_rule(ctx):
+    """`avro.codec` is optional in the header ("If codec is absent, it is assumed to be null"; the Java writer leaves it out
+    unless a codec was set): the header reader requires `avro.schema` only - a header without avro.codec is not a
+    "missing field" error"""
+    f = ctx.f
+    req = set()
+    n = 0
+    for b in f.body_list:
+        if 'object_container_file_encoding::' not in b.id or 'Metadata' not in b.id:
+            continue
+        for bb, t in b.calls():
+            if cname(t).endswith('de::missing_field') and not b.is_cleanup(bb):
+                n += 1
+                for a in t['args']:
+                    v = const_str(a)
+                    if v is not None:
+                        req.add(v)
+    ctx.ob('META', 'codec-is-optional', n >= 1 and 'avro.schema' in req and 'avro.codec' not in req, None,
+           'header keys whose absence is an error: %s (the specification requires avro.schema only; an absent avro.codec means null)' % sorted(req))
 
 
 def deflate(ctx):
